@@ -121,7 +121,7 @@ def run_case(spec):
             graph = graph_utils.adjacency_matrix_representation(ind.copy(), dist.copy())
             gcopy = graph.copy()
             print(json.dumps(dict(id=spec["id"], progress=name, n=int(X.shape[0]))), flush=True)
-            result = graph_utils.connect_graph(graph, index, search_size=spec["search_size"])
+            result = graph_utils.connect_graph(graph, index, search_size=spec["search_size"], n_jobs=spec.get("n_jobs"))
             st = analyse(gcopy, result, X, spec["metric"], reported)
             st["stage"] = name
             res["stages"].append(st)
